@@ -15,6 +15,13 @@ Public API (nothing here imports primaite; every random choice comes from the `r
         BOOTING / SHUTTING_DOWN for hosts, switches, routers and firewalls alike (at least one host OFF, one ON).
     permute_mappings(cfg, rng) -> dict      same scenario, the key order of EVERY mapping shuffled (lists untouched)
     reserialise(cfg, rng) -> dict           same scenario through a YAML dump in another style (flow/block, widths, sorted keys) and reload
+    enrich(cfg, rng, stepped=True) -> dict
+        the same scenario with the sections added to the C20 model in round 4, each with some probability: a `defaults:` section
+        (random subset of its eight keys), ACL addresses written with the documented keys `src_ip_address` / `dst_ip_address`
+        (sometimes BOTH spellings, the shipped one has to win), a wireless router (router interface, access point on either
+        frequency, ACL, routes, default route, any operating state) with `airspace.frequency_max_capacity_mbps`, an
+        `office-lan` node set linked to a switch of the scenario, `game` options (seed, episode length); and when the scenario
+        is not going to be stepped (`stepped=False`) links of bandwidth 0 and 10**9.
     format_variants(cfg, rng, which=None) -> [(name, dict)]
         formatting-only re-writings of the same file, each produced as YAML TEXT and parsed back with yaml.safe_load (what
         PrimAITE itself uses): "aliases" (equal sub-mappings written once with an anchor and referred to by alias: the parsed
@@ -770,6 +777,97 @@ def reserialise(cfg: dict, rng) -> dict:
     return yaml.safe_load(text)
 
 
+DEFAULTS_KEYS = ["node_start_up_duration", "node_shut_down_duration", "node_scan_duration", "folder_scan_duration",
+                 "folder_restore_duration", "service_fix_duration", "service_restart_duration", "service_install_duration"]
+
+
+def enrich(cfg: dict, rng, stepped: bool = True) -> dict:
+    c = copy.deepcopy(cfg)
+    net = c["simulation"]["network"]
+    nodes, links = net["nodes"], net["links"]
+    if rng.chance(1, 2):
+        c["defaults"] = {k: rng.choice([1, 2, 4, 6, 9]) for k in rng.shuffle(list(DEFAULTS_KEYS))[: rng.range(1, 5)]}
+    # documented spelling of ACL addresses
+    def respell(rule: dict):
+        for short, long_ in (("src_ip", "src_ip_address"), ("dst_ip", "dst_ip_address")):
+            if short in rule and rng.chance(1, 2):
+                if rng.chance(1, 4):
+                    rule[long_] = "10.9.9.9"      # both present: the shipped spelling wins
+                else:
+                    rule[long_] = rule.pop(short)
+    for n in nodes:
+        acl = n.get("acl")
+        if isinstance(acl, dict):
+            for v in acl.values():
+                if isinstance(v, dict) and "action" in v:
+                    respell(v)
+                elif isinstance(v, dict):
+                    for r in v.values():
+                        respell(r)
+    switches = [n for n in nodes if n["type"] == "switch"]
+    used = {}
+    for l in links:
+        for side in ("a", "b"):
+            used.setdefault(l[f"endpoint_{side}_hostname"], set()).add(l[f"endpoint_{side}_port"])
+    def free_port(sw):
+        for p in range(sw.get("num_ports", 8), 0, -1):
+            if p not in used.get(sw["hostname"], set()):
+                used.setdefault(sw["hostname"], set()).add(p)
+                return p
+        return None
+    if rng.chance(1, 2):
+        w: Dict[str, Any] = {"hostname": "wifi_1", "type": "wireless-router",
+                             "router_interface": {"ip_address": "192.168.77.1", "subnet_mask": "255.255.255.0"}}
+        if rng.chance(3, 4):
+            w["wireless_access_point"] = {"ip_address": "10.77.0.1", "subnet_mask": "255.255.255.0",
+                                          "frequency": rng.choice(["WIFI_2_4", "WIFI_5"])}
+        if rng.chance(1, 2):
+            w["acl"] = _acl(rng, ["192.168.77.10", "10.77.0.9"], rng.range(1, 3))
+            for r in w["acl"].values():
+                respell(r)
+        if rng.chance(1, 2):
+            w["routes"] = [{"address": "10.88.0.0", "subnet_mask": "255.255.0.0", "next_hop_ip_address": "192.168.77.2", "metric": rng.choice([0, 3])}]
+        if rng.chance(1, 3):
+            w["default_route"] = {"next_hop_ip_address": "192.168.77.2"}
+        st = rng.choice(POWER_STATES)
+        if st is not None:
+            w["operating_state"] = st
+        nodes.append(w)
+        if switches and rng.chance(2, 3):
+            sw = rng.choice(switches)
+            p = free_port(sw)
+            if p:
+                links.append({"endpoint_a_hostname": "wifi_1", "endpoint_a_port": 2, "endpoint_b_hostname": sw["hostname"], "endpoint_b_port": p})
+        if rng.chance(2, 3):
+            caps = {}
+            for f in rng.shuffle(["WIFI_2_4", "WIFI_5"])[: rng.range(1, 2)]:
+                caps[f] = rng.choice([0, 1, 54, 123.5, 1000])
+            net["airspace"] = {"frequency_max_capacity_mbps": caps}
+    if rng.chance(1, 2) and not net.get("node_sets"):
+        ns = {"type": "office-lan", "lan_name": rng.choice(["CORP", "HQ", "LAB"]), "subnet_base": rng.range(60, 90),
+              "pcs_ip_block_start": rng.range(10, 40), "num_pcs": rng.choice([0, 1, 2, 3, 24])}
+        if rng.chance(1, 2):
+            ns["bandwidth"] = rng.choice([100, 150, 10])
+        if rng.chance(1, 2):
+            ns["include_router"] = rng.chance(1, 2)
+        net["node_sets"] = [ns]
+        if switches and rng.chance(1, 2):  # a link of the scenario that ends at a node the node set creates
+            sw = rng.choice(switches)
+            p = free_port(sw)
+            if p:
+                links.append({"endpoint_a_hostname": f"switch_edge_1_{ns['lan_name']}", "endpoint_a_port": 23 if ns["num_pcs"] < 23 else 24 - 1,
+                              "endpoint_b_hostname": sw["hostname"], "endpoint_b_port": p} if ns["num_pcs"] < 23 else
+                             {"endpoint_a_hostname": f"switch_core_{ns['lan_name']}", "endpoint_a_port": 20,
+                              "endpoint_b_hostname": sw["hostname"], "endpoint_b_port": p})
+    if rng.chance(1, 3):
+        c["game"]["max_episode_length"] = rng.choice([8, 100, 256])
+    if not stepped:
+        for l in links:
+            if rng.chance(1, 6):
+                l["bandwidth"] = rng.choice([0, 10 ** 9])
+    return c
+
+
 def _intern(o: Any, pool: Dict[str, Any]) -> Any:
     """Deep copy in which equal mappings / lists (of some size) are ONE object, so that the YAML dumper writes anchors/aliases."""
     if isinstance(o, dict):
@@ -818,6 +916,82 @@ def _quote_ints(cfg: dict) -> dict:
         if isinstance(am, dict):
             a["action_space"]["action_map"] = {str(k): v for k, v in am.items()}
     return c
+
+
+def quoted_int_sites(cfg: dict) -> List[tuple]:
+    """One variant per KIND of integer site of the scenario format: the integers of that site (and only those) written as quoted
+    strings. [(site, variant)]; sites the scenario does not have are left out."""
+    out = []
+
+    def variant(site, edit):
+        c = copy.deepcopy(cfg)
+        if edit(c):
+            out.append((site, c))
+
+    def nodes(c):
+        return c.get("simulation", {}).get("network", {}).get("nodes", [])
+
+    def each(pred, fn):
+        def edit(c):
+            hit = False
+            for n in nodes(c):
+                if pred(n):
+                    hit = fn(n) or hit
+            return hit
+        return edit
+
+    def strkeys(n, key):
+        if isinstance(n.get(key), dict) and n[key]:
+            n[key] = {str(k): v for k, v in n[key].items()}
+            return True
+        return False
+
+    def strval(d, key):
+        if isinstance(d.get(key), int) and not isinstance(d.get(key), bool):
+            d[key] = str(d[key])
+            return True
+        return False
+
+    variant("router acl position", each(lambda n: n["type"] in ("router", "wireless-router"), lambda n: strkeys(n, "acl")))
+    variant("firewall acl position", each(lambda n: n["type"] == "firewall" and isinstance(n.get("acl"), dict), lambda n: any(
+        [n["acl"].__setitem__(nm, {str(k): v for k, v in a.items()}) or True for nm, a in list(n["acl"].items()) if isinstance(a, dict) and a])))
+    variant("router ports key", each(lambda n: n["type"] == "router", lambda n: strkeys(n, "ports")))
+    variant("network_interfaces key", each(lambda n: True, lambda n: strkeys(n, "network_interfaces")))
+    variant("num_ports", each(lambda n: True, lambda n: strval(n, "num_ports")))
+    variant("start_up_duration / shut_down_duration", each(lambda n: True, lambda n: any([strval(n, "start_up_duration"), strval(n, "shut_down_duration")])))
+    variant("route metric", each(lambda n: True, lambda n: any([strval(r, "metric") for r in n.get("routes") or []])))
+    variant("software fixing_duration", each(lambda n: True, lambda n: any(
+        [strval(e.get("options") or {}, "fixing_duration") for e in (n.get("services") or []) + (n.get("applications") or [])])))
+    variant("listen_on_ports entry", each(lambda n: True, lambda n: any(
+        [(e["options"].__setitem__("listen_on_ports", [str(p) if isinstance(p, int) else p for p in e["options"]["listen_on_ports"]]) or True)
+         for e in (n.get("services") or []) + (n.get("applications") or [])
+         if any(isinstance(p, int) for p in (e.get("options") or {}).get("listen_on_ports", []))])))
+    variant("file size", each(lambda n: True, lambda n: any(
+        [strval(f, "size") for fd in n.get("folders") or [] for f in fd.get("files") or []])))
+
+    def link_ports(c):
+        ls = c["simulation"]["network"].get("links") or []
+        for l in ls:
+            l["endpoint_a_port"], l["endpoint_b_port"] = str(l["endpoint_a_port"]), str(l["endpoint_b_port"])
+        return bool(ls)
+    variant("link endpoint port", link_ports)
+    variant("link bandwidth", lambda c: any([strval(l, "bandwidth") for l in c["simulation"]["network"].get("links") or []]))
+
+    def amap(c):
+        hit = False
+        for a in c.get("agents", []):
+            am = (a.get("action_space") or {}).get("action_map")
+            if isinstance(am, dict) and am:
+                a["action_space"]["action_map"] = {str(k): v for k, v in am.items()}
+                hit = True
+        return hit
+    variant("action_map key", amap)
+    variant("game max_episode_length", lambda c: strval(c.get("game", {}), "max_episode_length"))
+    variant("defaults value", lambda c: any([strval(c.get("defaults") or {}, k) for k in DEFAULTS_KEYS]))
+    variant("office-lan numbers", lambda c: any(
+        [any([strval(ns, k) for k in ("subnet_base", "pcs_ip_block_start", "num_pcs", "bandwidth")])
+         for ns in c["simulation"]["network"].get("node_sets") or []]))
+    return out
 
 
 def format_variants(cfg: dict, rng, which: Optional[List[str]] = None) -> List[tuple]:
